@@ -1,11 +1,16 @@
 package main
 
-// Guarded reads. A ReadFrom that (wrongly) accepts a foreign or mismatched header goes
-// on to interpret arbitrary bytes as counts and may ask for gigabytes: that must show as
-// an outcome of the implementation ("crashed"), not take the harness down. Such reads
-// run in a child process (this same binary, first argument "-readchild") under an
-// address-space limit; the child answers one outcome line per job, so when it dies the
-// parent knows on which job.
+// Guarded reads. Every ReadFrom of a truncated, foreign or mismatched stream — and every
+// search over a store with a damaged segment — runs in a child process (this same binary,
+// first argument "-readchild"), for two reasons:
+//   * a ReadFrom that (wrongly) goes on after a bad header interprets arbitrary bytes as
+//     counts and may ask for gigabytes: the child runs under an address-space limit and
+//     its death is an outcome of the implementation ("crashed"), not of the harness;
+//   * a ReadFrom that does not RETURN (C16: "never hangs") must cost a few seconds, not
+//     the run: every answer line has a deadline; on expiry the child is killed (so the
+//     spinning read stops burning CPU) and the outcome of that job is "hang".
+// The child answers one line per job item and flushes it, so the parent always knows on
+// which item the child died or stalled.
 
 import (
 	"bufio"
@@ -15,12 +20,27 @@ import (
 	"os"
 	"os/exec"
 	"runtime/debug"
+	"sync/atomic"
 	"syscall"
+	"time"
 )
 
+// cdcReadJob is one job for the child:
+//
+//	T = "read" (default): ReadFrom(B) into a fresh index of parameters P        → 1 line
+//	T = "prefixes":       ReadFrom(B[:n]) for every n in Lens                    → len(Lens) lines
+//	T = "probe":          reopen the store in Dir and probe it per modality      → 1 line (JSON)
 type cdcReadJob struct {
-	P cdcCparams `json:"p"`
-	B string     `json:"b"` // hex
+	T    string      `json:"t,omitempty"`
+	P    cdcCparams  `json:"p"`
+	B    string      `json:"b,omitempty"` // hex
+	Lens []int       `json:"lens,omitempty"`
+	Dir  string      `json:"dir,omitempty"`
+	Pr   cdcSegProbe `json:"pr,omitempty"`
+}
+
+type cdcProbeAnswer struct {
+	V, T, M, Cached, Err string
 }
 
 func init() {
@@ -36,12 +56,33 @@ func init() {
 				var j cdcReadJob
 				if json.Unmarshal(line, &j) != nil {
 					fmt.Fprintln(out, "p bad job")
+					out.Flush()
 				} else {
-					b, _ := hex.DecodeString(j.B)
-					o, _, msg := cdcReadOutcome(j.P, b)
-					fmt.Fprintf(out, "%c %s\n", o, msg)
+					switch j.T {
+					case "prefixes":
+						b, _ := hex.DecodeString(j.B)
+						for _, n := range j.Lens {
+							if n > len(b) {
+								n = len(b)
+							}
+							o, _, msg := cdcReadOutcome(j.P, b[:n])
+							fmt.Fprintf(out, "%c %s\n", o, msg)
+							out.Flush()
+						}
+					case "probe":
+						var a cdcProbeAnswer
+						a.V, a.T, a.M, a.Cached, a.Err = cdcProbeStore(j.Dir, j.P, j.Pr)
+						enc, _ := json.Marshal(a)
+						out.Write(enc)
+						out.WriteByte('\n')
+						out.Flush()
+					default:
+						b, _ := hex.DecodeString(j.B)
+						o, _, msg := cdcReadOutcome(j.P, b)
+						fmt.Fprintf(out, "%c %s\n", o, msg)
+						out.Flush()
+					}
 				}
-				out.Flush()
 			}
 			if err != nil {
 				os.Exit(0)
@@ -50,49 +91,171 @@ func init() {
 	}
 }
 
-// cdcGuardedReads runs the jobs in child processes; outcome 'p' with the message
-// "crashed" stands for a child that died on that job.
-func cdcGuardedReads(jobs []cdcReadJob) (outs []byte, msgs []string) {
-	outs, msgs = make([]byte, len(jobs)), make([]string, len(jobs))
-	i := 0
-	for i < len(jobs) {
-		cmd := exec.Command(os.Args[0], "-readchild")
-		stdin, err1 := cmd.StdinPipe()
-		stdout, err2 := cmd.StdoutPipe()
-		if err1 != nil || err2 != nil || cmd.Start() != nil {
-			// cannot guard: fall back to in-process reads
-			for ; i < len(jobs); i++ {
-				b, _ := hex.DecodeString(jobs[i].B)
-				outs[i], _, msgs[i] = cdcReadOutcome(jobs[i].P, b)
-			}
-			return
-		}
-		go func(from int) {
-			w := bufio.NewWriter(stdin)
-			for k := from; k < len(jobs); k++ {
-				enc, _ := json.Marshal(jobs[k])
-				w.Write(enc)
-				w.WriteByte('\n')
-			}
-			w.Flush()
-			stdin.Close()
-		}(i)
+// the deadline of one answer: generous against the largest legitimate read (milliseconds);
+// once a hang has been seen in this run the later ones are given less
+var cdcHangSeen atomic.Bool
+
+func cdcDeadline() time.Duration {
+	if cdcHangSeen.Load() {
+		return 3 * time.Second
+	}
+	return 10 * time.Second
+}
+
+// cdcChild is one guarded child process.
+type cdcChild struct {
+	cmd   *exec.Cmd
+	in    *bufio.Writer
+	lines chan string // answer lines; closed when the child's stdout ends
+}
+
+func cdcStartChild() *cdcChild {
+	cmd := exec.Command(os.Args[0], "-readchild")
+	stdin, err1 := cmd.StdinPipe()
+	stdout, err2 := cmd.StdoutPipe()
+	if err1 != nil || err2 != nil || cmd.Start() != nil {
+		return nil
+	}
+	c := &cdcChild{cmd: cmd, in: bufio.NewWriterSize(stdin, 1<<16), lines: make(chan string, 4096)}
+	go func() {
 		rd := bufio.NewReaderSize(stdout, 1<<16)
-		for i < len(jobs) {
-			line, err := rd.ReadString('\n')
-			if err != nil || len(line) < 1 {
-				outs[i], msgs[i] = 'p', "crashed (child process died: out of memory or fatal error)"
-				i++
-				break
+		for {
+			l, err := rd.ReadString('\n')
+			if len(l) > 0 && l[len(l)-1] == '\n' {
+				c.lines <- l[:len(l)-1]
 			}
-			outs[i] = line[0]
-			if len(line) > 2 {
-				msgs[i] = line[2 : len(line)-1]
+			if err != nil {
+				close(c.lines)
+				return
 			}
-			i++
 		}
-		cmd.Process.Kill()
-		cmd.Wait()
+	}()
+	return c
+}
+
+func (c *cdcChild) kill() {
+	if c == nil || c.cmd == nil {
+		return
+	}
+	c.cmd.Process.Kill()
+	c.cmd.Wait()
+	c.cmd = nil
+}
+
+// cdcGuard runs jobs in a child that is restarted whenever it dies or stalls.
+type cdcGuard struct{ c *cdcChild }
+
+func (g *cdcGuard) close() {
+	g.c.kill()
+	g.c = nil
+}
+
+// ask sends one job and collects its n answer lines. status: "" = all answered,
+// "crashed" = the child died before answer number len(answers), "hang" = that answer did
+// not arrive before the deadline (the child is killed either way), "nochild" = no child
+// process could be started.
+func (g *cdcGuard) ask(j cdcReadJob, n int) (answers []string, status string) {
+	if g.c == nil {
+		g.c = cdcStartChild()
+		if g.c == nil {
+			return nil, "nochild"
+		}
+	}
+	enc, _ := json.Marshal(j)
+	g.c.in.Write(enc)
+	g.c.in.WriteByte('\n')
+	if g.c.in.Flush() != nil {
+		g.close()
+		return nil, "crashed"
+	}
+	for len(answers) < n {
+		timer := time.NewTimer(cdcDeadline())
+		select {
+		case l, ok := <-g.c.lines:
+			timer.Stop()
+			if !ok {
+				g.close()
+				return answers, "crashed"
+			}
+			answers = append(answers, l)
+		case <-timer.C:
+			cdcHangSeen.Store(true)
+			g.close()
+			return answers, "hang"
+		}
+	}
+	return answers, ""
+}
+
+const cdcCrashMsg = "crashed (child process died: out of memory or fatal error)"
+const cdcHangMsg = "did not return (no answer before the deadline; the reading process was killed)"
+
+// read runs one ReadFrom; outcomes 'e' / 'o' / 'p' (panic or crash) / 'h' (hang).
+func (g *cdcGuard) read(p cdcCparams, b []byte) (byte, string) {
+	a, st := g.ask(cdcReadJob{P: p, B: cdcHexStr(b)}, 1)
+	switch st {
+	case "crashed":
+		return 'p', cdcCrashMsg
+	case "hang":
+		return 'h', cdcHangMsg
+	case "nochild":
+		o, _, msg := cdcReadOutcome(p, b)
+		return o, msg
+	}
+	return cdcParseOutcome(a[0])
+}
+
+func cdcParseOutcome(l string) (byte, string) {
+	if len(l) == 0 {
+		return 'p', "empty answer"
+	}
+	if len(l) > 2 {
+		return l[0], l[2:]
+	}
+	return l[0], ""
+}
+
+// prefixes reads b[:n] for every n of lens, in order, and stops at the first length on
+// which ReadFrom crashed or did not return (outs is then shorter than lens + that one).
+func (g *cdcGuard) prefixes(p cdcCparams, b []byte, lens []int) (outs []byte, msgs []string) {
+	for len(outs) < len(lens) {
+		rest := lens[len(outs):]
+		if len(rest) > 1024 {
+			rest = rest[:1024]
+		}
+		a, st := g.ask(cdcReadJob{T: "prefixes", P: p, B: cdcHexStr(b), Lens: rest}, len(rest))
+		for _, l := range a {
+			o, m := cdcParseOutcome(l)
+			outs, msgs = append(outs, o), append(msgs, m)
+		}
+		switch st {
+		case "crashed":
+			return append(outs, 'p'), append(msgs, cdcCrashMsg)
+		case "hang":
+			return append(outs, 'h'), append(msgs, cdcHangMsg)
+		case "nochild":
+			for _, n := range rest {
+				o, _, m := cdcReadOutcome(p, b[:n])
+				outs, msgs = append(outs, o), append(msgs, m)
+			}
+		}
 	}
 	return
+}
+
+// probe reopens the store in dir in the child and probes it; status as in ask.
+func (g *cdcGuard) probe(dir string, p cdcCparams, pr cdcSegProbe) (v, t, m, cached, perr, status string) {
+	a, st := g.ask(cdcReadJob{T: "probe", P: p, Dir: dir, Pr: pr}, 1)
+	if st == "nochild" {
+		v, t, m, cached, perr = cdcProbeStore(dir, p, pr)
+		return v, t, m, cached, perr, ""
+	}
+	if st != "" {
+		return "-", "-", "-", "0", "", st
+	}
+	var ans cdcProbeAnswer
+	if json.Unmarshal([]byte(a[0]), &ans) != nil {
+		return "-", "-", "-", "0", "bad probe answer", ""
+	}
+	return ans.V, ans.T, ans.M, ans.Cached, ans.Err, ""
 }
